@@ -147,6 +147,7 @@ void    simnet_reset(int fd);  // abortive close (RST)
 void simnet_set_cut(int fd, int dir /*0 rd,1 wr*/, long offset);
 void simnet_stall_conn(int fd, int dir, int on);
 void simnet_partition(uint32_t ip_a, uint32_t ip_b, int on);
+void simnet_stall_port(uint16_t server_port, int toward_server, int on);
 void simnet_blackhole(uint32_t ip, uint16_t port, int on);
 void simnet_kill_conns_of(uint32_t ip, uint16_t port); // reset all conns whose server side is ip:port
 int  simnet_inflight(void); // bytes/segments in flight
